@@ -10,7 +10,20 @@ pub trait AsyncReadExt {}
 pub trait AsyncWriteExt {}
 pub struct JsonRpcCodec { pub _p: u8 }
 pub struct JsonCodec { pub _p: u8 }
-pub struct FramedRead<I, C> { pub p: core::marker::PhantomData<(I, C)> }
+/// tokio_util FramedRead: the underlying reader plus the bytes already read from it but not yet
+/// decoded (`buffered`); into_inner() hands back the reader WITHOUT them
+pub struct FramedRead<I, C> { pub io: I, pub buffered: Seq<u8>, pub p: core::marker::PhantomData<C> }
+impl<I, C> FramedRead<I, C> {
+    #[verifier::external_body]
+    pub fn into_inner(self) -> (r: I) ensures r == self.io { unimplemented!() }
+    #[verifier::external_body]
+    pub fn new(io: I, codec: C) -> (r: Self) ensures r.io == io, r.buffered == Seq::<u8>::empty() { unimplemented!() }
+    #[verifier::external_body]
+    pub fn with_capacity(io: I, codec: C, n: usize) -> (r: Self) ensures r.io == io, r.buffered == Seq::<u8>::empty() { unimplemented!() }
+}
+impl JsonRpcCodec { #[verifier::external_body] pub fn default() -> (r: Self) { unimplemented!() } }
+/// env mirror of ConfiguredPlugin with the real field names used by the slice of start()
+pub struct ConfiguredPlugin<I, O> { pub input: FramedRead<I, JsonRpcCodec>, pub output: Arc<Mutex<FramedWrite<O, JsonCodec>>> }
 pub struct FramedWrite<O, C> { pub p: core::marker::PhantomData<(O, C)> }
 pub struct Mutex<T> { pub p: core::marker::PhantomData<T> }
 pub struct WriterGuard<'a, O> { pub p: core::marker::PhantomData<&'a O> }
